@@ -129,8 +129,199 @@ def run(ctx) -> None:
     ctx.rule(rule_switch)
     ctx.rule(rule_fingerprint)
     ctx.rule(rule_quick_info_twin)
+    ctx.rule(rule_deterministic_content)
+    ctx.rule(rule_trust_decision)
     ctx.chk.assumptions = ["pickle's documented failure set; filelock.Timeout is a TimeoutError (OSError); FileLock gives mutual exclusion between processes",
                            "not decided: equality of cached and uncached answers (fingerprint completeness), N-process interleavings beyond lock discipline"]
+
+
+_SET_ORDER_EXAMPLE = """
+def build(a, b):
+    merged = list(set(a + b))
+    for x in {1, 2}:
+        pass
+    ok = sorted(set(a))
+    return merged
+"""
+
+
+def _set_order_uses(fn_node: ast.AST) -> List[ast.AST]:
+    """Places where the iteration order of a set becomes the order of data: list(<set>) / tuple(<set>) / "".join(<set>) /
+    `for x in <set>` / a comprehension over a set - unless immediately given to sorted() / min / max / sum / len / any / all / set ops."""
+    def is_set(e: ast.AST, env: Dict[str, bool]) -> bool:
+        if isinstance(e, (ast.Set, ast.SetComp)):
+            return True
+        if isinstance(e, ast.Call) and isinstance(e.func, ast.Name) and e.func.id in ("set", "frozenset"):
+            return True
+        if isinstance(e, ast.Name):
+            return env.get(e.id, False)
+        if isinstance(e, ast.BinOp) and isinstance(e.op, (ast.BitOr, ast.BitAnd, ast.Sub, ast.BitXor)):
+            return is_set(e.left, env) or is_set(e.right, env)
+        return False
+    env: Dict[str, bool] = {}
+    for n in ast.walk(fn_node):
+        if isinstance(n, ast.Assign) and len(n.targets) == 1 and isinstance(n.targets[0], ast.Name):
+            env[n.targets[0].id] = env.get(n.targets[0].id, False) or is_set(n.value, {})
+    out: List[ast.AST] = []
+    for n in ast.walk(fn_node):
+        if isinstance(n, ast.Call) and isinstance(n.func, ast.Name) and n.func.id in ("list", "tuple") and len(n.args) == 1 and is_set(n.args[0], env):
+            out.append(n)
+        elif isinstance(n, ast.Call) and isinstance(n.func, ast.Attribute) and n.func.attr == "join" and len(n.args) == 1 and is_set(n.args[0], env):
+            out.append(n)
+        elif isinstance(n, (ast.For, ast.AsyncFor)) and is_set(n.iter, env):
+            out.append(n)
+        elif isinstance(n, (ast.ListComp, ast.GeneratorExp, ast.DictComp)) and any(is_set(g.iter, env) for g in n.generators):
+            par = A.parent(n)
+            if isinstance(par, ast.Call) and isinstance(par.func, ast.Name) and par.func.id in ("sorted", "set", "frozenset", "min", "max", "sum", "any", "all", "len"):
+                continue
+            out.append(n)
+    return out
+
+
+def rule_deterministic_content(ctx) -> None:
+    """C18.deterministic-content: what is put into the cache must not depend on the process that wrote it, otherwise a process that
+    reads the cache answers differently from one that computes the answer itself.  Set iteration order over strings depends on the
+    per-process hash seed: no function reachable from QuickDatabase.create (inside the database module) turns a set into ordered data."""
+    from ..core import callgraph as CG
+    pos = ast.parse(_SET_ORDER_EXAMPLE).body[0]
+    for par_ in ast.walk(pos):
+        for ch_ in ast.iter_child_nodes(par_):
+            ch_._parent = par_  # type: ignore[attr-defined]
+    if len(_set_order_uses(pos)) != 2:
+        raise AnalysisError("C18.deterministic-content: the embedded positive example is no longer recognised")
+    prog = ctx.prog
+    root = ctx.own(DB, "QuickDatabase", "create")
+    seen = {root.qual: root}
+    work = [root]
+    while work:
+        f = work.pop()
+        for c in A.calls_in(f.node):
+            for t in CG.resolve_call(prog, f.module, f.cls, c) or []:
+                if t.module.relpath == DB and t.qual not in seen:
+                    seen[t.qual] = t
+                    work.append(t)
+            # ClassName(...) constructs: follow __init__
+            if isinstance(c.func, ast.Name):
+                k = prog.resolve(f.module, c.func.id)
+                if isinstance(k, ClassInfo) and k.module.relpath == DB:
+                    init = prog.find_method(k, "__init__")
+                    if init is not None and init.qual not in seen:
+                        seen[init.qual] = init
+                        work.append(init)
+    if len(seen) < 5:
+        raise AnalysisError(f"C18.deterministic-content: only {len(seen)} functions reachable from QuickDatabase.create (expected the quick-info builders)")
+    for q, f in sorted(seen.items()):
+        ctx.chk.analysed(q)
+        uses = _set_order_uses(f.node)
+        ctx.chk.decide(not uses, "C18.deterministic-content", q, "no set is turned into ordered data while the cached object is built",
+                       f"the order of {norm(uses[0])[:110] if uses else ''} depends on the writer's hash seed: the cached answer differs from the one a process computes itself",
+                       "sorted(...) or an order preserving de-duplication (dict.fromkeys)", A.loc(DB, uses[0] if uses else f.node))
+    ctx.chk.floor("C18.deterministic-content", 5)
+
+
+def rule_trust_decision(ctx) -> None:
+    """C18.trust-decision: both cache readers evaluated as whole functions on a model (file system, lock, pickle and the fingerprint
+    function are leaves): a cached object is used exactly when its stored fingerprint equals the current one; a stale one is dropped,
+    the answer is computed from the database and carries the CURRENT fingerprint.  (The crash states - load raising - are the
+    exc-cover / fallback / no-trust rules; the evaluator does not model exceptions entering handlers.)"""
+    from ..engines import ordereval as oe
+    Obj = oe.Obj
+
+    def leaves(log, cached, cur_hash):
+        def cv(c: ast.Call, ev):
+            f = norm(c.func)
+            if f == "isinstance" and len(c.args) == 2:
+                return True
+            if f == "type" and len(c.args) == 1:
+                return "T"
+            if f.endswith("get_restricted_data"):
+                return "R"
+            if f.endswith("get_quick_info_hash") or f.endswith("hash_db_data"):
+                log.append("hash")
+                return cur_hash
+            if f == "get_spsdk_cache_dirname":
+                return "/c"
+            if f.endswith("_get_quick_info_db_path") or f.endswith("get_cache_filename"):
+                return "/c/file.cache"
+            if f == "os.path.exists":
+                return True
+            if f == "os.path.join":
+                return "/".join(str(ev.ev(a_)) for a_ in c.args)
+            if f in ("FileLock", "contextlib.suppress"):
+                return Obj(_ctx=1)
+            if f == "open":
+                return Obj(_file=1)
+            if f == "pickle.load":
+                log.append("load")
+                return cached
+            if f.endswith("get_db"):
+                return Obj(_db=1)
+            if f == "QuickDatabase.create":
+                return Obj(_kind="fresh", db_hash=None)
+            if f == "load_configuration":
+                return "FRESH-DEFAULTS"
+            if f in ("os.makedirs", "os.remove"):
+                log.append(f)
+                return None
+            if f == "pickle.dump":
+                log.append(("dump", ev.ev(c.args[0])))
+                return None
+            if f.endswith("clear_cache"):
+                return None
+            if isinstance(c.func, ast.Attribute) and c.func.attr == "keys" and not c.args:
+                return ("k",)
+            return oe.NOT_MODELLED
+        return cv
+    # 1. quick-info database
+    fn = ctx.own(DB, "DatabaseManager", "_get_quick_info_db")
+    probs = []
+    for stored, fresh_expected in ((b"H", False), (b"X", True), (b"", True)):
+        cached = Obj(_kind="cached", db_hash=stored)
+        log: list = []
+        try:
+            out = oe.Evaluator({"cls": Obj(_k=1), "SPSDK_CACHE_DISABLED": False}, ctx.fold_sym(fn), opaque_return=False, call_value=leaves(log, cached, b"H")).run(A.body_of(fn.node))
+        except oe.Unsupported as ex:
+            raise AnalysisError(f"C18.trust-decision: {fn.qual} left the fragment: {ex}")
+        kind = getattr(out.value, "_kind", None) if out.kind == "return" else out.kind
+        if fresh_expected:
+            if kind != "fresh" or getattr(out.value, "db_hash", None) != b"H":
+                probs.append(f"stored fingerprint {stored!r} != current b'H': answer is {kind} with fingerprint {getattr(out.value, 'db_hash', None)!r}")
+            elif not any(isinstance(x, tuple) and x[0] == "dump" and x[1] is out.value for x in log):
+                probs.append(f"stored fingerprint {stored!r}: the stale cache is not replaced")
+        elif kind != "cached":
+            probs.append(f"stored fingerprint equals the current one: answer is {kind} (cache never used)")
+    ctx.chk.exhaustive_rules.add("C18.trust-decision")
+    ctx.chk.decide(not probs, "C18.trust-decision", fn.qual, "cached quick-info object used exactly when its fingerprint is current; otherwise recomputed, stamped with the current fingerprint and written back (3 models)",
+                   "; ".join(probs[:2]), "if db_hash == loaded_db.db_hash: return loaded_db", A.loc(DB, fn.node))
+    # 2. per-database data cache
+    init_node = None
+    for k in ast.walk(ctx.m(DB).tree):
+        if isinstance(k, ast.ClassDef) and k.name == "DatabaseData":
+            for st in k.body:
+                if isinstance(st, ast.FunctionDef) and st.name == "__init__":
+                    init_node = st
+    if init_node is None:
+        raise AnalysisError("C18.trust-decision: DatabaseData.__init__ not found")
+    init_qual = f"{DB}::Database.DatabaseData.__init__"
+    ctx.chk.analysed(init_qual)
+    probs = []
+    for stored, trusted in ((b"H", True), (b"X", False)):
+        cached = Obj(_kind="cached", db_hash=stored, cfg_cache={"k": "CACHED-CFG"}, defaults="CACHED-DEFAULTS")
+        me = Obj()
+        log = []
+        env = {"self": me, "path": "/data", "restricted_data_path": None, "addons_data_path": None, "complete_load": False, "SPSDK_CACHE_DISABLED": False}
+        try:
+            out = oe.Evaluator(env, ctx.fold_sym(fn), opaque_return=False, call_value=leaves(log, cached, b"H")).run(A.body_of(init_node))
+        except oe.Unsupported as ex:
+            raise AnalysisError(f"C18.trust-decision: {init_qual} left the fragment: {ex}")
+        got = (me.__dict__.get("cfg_cache"), me.__dict__.get("defaults"), me.__dict__.get("db_hash"))
+        want = ({"k": "CACHED-CFG"}, "CACHED-DEFAULTS", b"H") if trusted else ({}, "FRESH-DEFAULTS", b"")
+        if out.kind == "raise" or got != want:
+            probs.append(f"stored fingerprint {stored!r}, current b'H': (cfg_cache, defaults, db_hash) = {got} expected {want}")
+        if not trusted and "os.remove" not in log:
+            probs.append(f"stored fingerprint {stored!r}: the stale cache file is not removed")
+    ctx.chk.decide(not probs, "C18.trust-decision", init_qual, "cached configuration data used exactly when its fingerprint is current; a stale cache is dropped and removed (2 models)",
+                   "; ".join(probs[:2])[:500], "if db_hash != loaded_db_data.db_hash: loaded_db_data = None", A.loc(DB, init_node))
 
 
 def rule_fingerprint(ctx) -> None:
